@@ -139,6 +139,7 @@ def run(ctx, rep, tier):
         n += 1
     n_names = symbolic_names(B, rep, tier)
     n_mode = mode_predicate(B, rep, 4 if tier == "quick" else 6)
+    n_mode += options_independence(B, rep, T)
     cov = B.coverage_common()
     cov["symbolic_file_names"] = dict(obligations=n_names, explanation="file actions whose file name is 1, 2, 6 or 11 (thorough 1..16) arbitrary code points: the destination "
                                       "table must name exactly that file for every name (z3 over the name characters), alone and next to a "
@@ -229,6 +230,44 @@ def json_debug(t):
         else:
             out += ch
     return out + '"'
+
+
+def options_independence(B, rep, T):
+    """the mode depends on the actions only: for every single action and symbolic run options (depth flag, thread count absent or any
+    u32) the compiled expression is framed exactly when the rule says so"""
+    n_ob = 0
+    for a in ACTIONS:
+        tree, sx = T.leaf(a)
+        dep = z3.Bool("optdep_" + a)
+        has = z3.Bool("opthas_" + a)
+        thr = z3.BitVec("optthr_" + a, 32)
+        opts = Struct("RunOptions", ("depth", "threads"), (dep, Union([(z3.Not(has), Adt("Option", "None")), (has, Adt("Option", "Some", [thr]))])))
+        r = compile_tree(B, tree, opts)
+        want = spec_framed([a])
+        bad = False
+        for g, v in r.alts:
+            if isinstance(v, Panic) or not is_ok(v):
+                bad = b_or(bad, g)
+                continue
+            for g2, ce in flatten_value(v.fields[0]):
+                if (iomap_of(ce) is not None) != want:
+                    bad = b_or(bad, b_and(g, g2))
+        res, m = B.solve("mode-independent-of-options:%s" % a, list(r.assume), bad)
+        n_ob += 1
+        if res == z3.sat:
+            text = a
+            if z3.is_true(m.eval(has, model_completion=True)):
+                text = "-threads %d %s" % (m.eval(thr, model_completion=True).as_long(), text)
+            if z3.is_true(m.eval(dep, model_completion=True)):
+                text = "-depth " + text
+            d = B.ctx.run_native([text], "debug")[0]
+            framed = d.get("iomap", "none") != "none"
+            if d.get("compile") == "ok" and framed == want:
+                rep.inconclusive.append("options witness %r does not reproduce natively" % text)
+                continue
+            rep.violation("routing:mode-depends-on-options", "%r: mode is %s (compile %s) but the rule, which looks at the actions only, says %s" % (
+                text, "framed" if framed else "plain", d.get("compile"), "framed" if want else "plain"), dict(input=text, native=d))
+    return n_ob
 
 
 def mode_predicate(B, rep, nmax):
